@@ -272,6 +272,8 @@ type cRecorder struct {
 	log      *cLog
 	rc       *RemoteClient
 	autoReady bool          // call Ready(NextMessageID()) on every AcceptRegister (handler 0 only)
+	readyOwn  bool          // ...but derive the id from the handler's own progress (last delivered + 1)
+	lastID    uint64
 	delayNS  int64 // sleep in HandleTx/HandleTxUpdate (slow handler), atomic
 	readyErr []error
 }
@@ -280,12 +282,14 @@ func (r *cRecorder) HandleTx(ctx context.Context, tx *Tx) {
 	if d := atomic.LoadInt64(&r.delayNS); d > 0 {
 		time.Sleep(time.Duration(d))
 	}
+	atomic.StoreUint64(&r.lastID, tx.ID)
 	r.log.add(cEvent{Handler: r.id, Kind: "tx", ID: tx.ID, TxID: *tx.Tx.TxHash()})
 }
 func (r *cRecorder) HandleTxUpdate(ctx context.Context, u *TxUpdate) {
 	if d := atomic.LoadInt64(&r.delayNS); d > 0 {
 		time.Sleep(time.Duration(d))
 	}
+	atomic.StoreUint64(&r.lastID, u.ID)
 	r.log.add(cEvent{Handler: r.id, Kind: "update", ID: u.ID, TxID: u.TxID})
 }
 func (r *cRecorder) HandleHeaders(ctx context.Context, h *Headers) {
@@ -297,7 +301,11 @@ func (r *cRecorder) HandleMessage(ctx context.Context, p MessagePayload) {
 	case *AcceptRegister:
 		r.log.add(cEvent{Handler: r.id, Kind: "accept"})
 		if r.autoReady && r.rc != nil {
-			if err := r.rc.Ready(ctx, r.rc.NextMessageID()); err != nil {
+			next := r.rc.NextMessageID()
+			if r.readyOwn {
+				next = atomic.LoadUint64(&r.lastID) + 1
+			}
+			if err := r.rc.Ready(ctx, next); err != nil {
 				r.readyErr = append(r.readyErr, err)
 			}
 		}
@@ -326,6 +334,7 @@ type cOpt struct {
 	retryDelay     time.Duration
 	handlers       int
 	autoReady      bool
+	readyOwn       bool
 	handlerDelay   time.Duration
 }
 
@@ -357,7 +366,7 @@ func newCEnv(opt cOpt, onConn func(*vconn)) (*cEnv, error) {
 		n = 2
 	}
 	for i := 0; i < n; i++ {
-		r := &cRecorder{id: i, log: e.log, rc: rc, autoReady: opt.autoReady && i == 0, delayNS: int64(opt.handlerDelay)}
+		r := &cRecorder{id: i, log: e.log, rc: rc, autoReady: opt.autoReady && i == 0, readyOwn: opt.readyOwn, delayNS: int64(opt.handlerDelay)}
 		e.recs = append(e.recs, r)
 		rc.RegisterHandler(r)
 	}
